@@ -27,6 +27,7 @@ Act(e) == CASE e.op = "create" -> CreateBlock(e.t)
             [] e.op = "getblockid" -> GetBlockID(e.t, e.s)
             [] e.op = "seal" -> Seal(e.t)
             [] e.op = "reload" -> Reload(e.t)
+            [] e.op = "xappend" -> CrossAppendRefused(e.k, e.t)
             [] e.op = "newbuilder" -> NewBuilder
             [] e.op = "buildroot" -> BuildRoot(e.b)
 
